@@ -30,6 +30,8 @@ pub trait VxIterExt<T>: Sized {
         ensures
             r@.len() == self.vx_seq().len(),
             forall|i: int| 0 <= i < r@.len() ==> r@[i] == (i as usize, self.vx_seq()[i]),
+            // a Vec never holds more than isize::MAX elements: the indices are the positions
+            r@.len() <= usize::MAX,
     ;
 
     fn skip(self, n: usize) -> (r: Vec<T>)
